@@ -5,9 +5,11 @@ package e2res
 import (
 	"context"
 	"fmt"
+	"iter"
 	"math"
 	"math/rand/v2"
 	"runtime"
+	"slices"
 	"sort"
 	"strings"
 	"sync"
@@ -50,13 +52,20 @@ type SeqName struct {
 	// host:port, so its HTTPS records live at _port._https.host - a name that
 	// vanishes altogether (NXDOMAIN) when the records are withdrawn.
 	Port int `json:"port,omitempty"`
+	// Upper (sequential histories): the caller spells the name with an
+	// upper-case letter (names compare without regard to case).
+	Upper bool `json:"upper,omitempty"`
 }
 
 func (n *SeqName) input() string {
-	if n.Port != 0 {
-		return fmt.Sprintf("%s:%d", n.Host, n.Port)
+	h := n.Host
+	if n.Upper {
+		h = strings.ToUpper(h[:1]) + h[1:]
 	}
-	return n.Host
+	if n.Port != 0 {
+		return fmt.Sprintf("%s:%d", h, n.Port)
+	}
+	return h
 }
 
 func (n *SeqName) httpsOwner() string {
@@ -538,6 +547,9 @@ func genC16(seed uint64, idx int) *Plan {
 		if p.Names[i].Shape == "https" && !referenced && idx%4 == 0 {
 			p.Names[i].Port = 8443
 		}
+		if !referenced && (p.Names[i].Shape == "plain" || p.Names[i].Shape == "https") && idx%6 == 2 {
+			p.Names[i].Upper = true
+		}
 	}
 	p.LatencyUs = core.Pick(r, []int{1, 500, 20000, 20000, 1500000, 4000000})
 	p.CacheSize = core.Pick(r, []int{-1, -1, -1, 128, 128, 8, 2, 0})
@@ -969,10 +981,27 @@ func executeConc(t *testing.T, prop string, pl *Plan) *core.Result {
 						// use the result the way a dialer does
 						pk, pm, ps := core.Guard(func() {
 							for _, nw := range p.Networks {
-								for tg := range targetsOf(rr, nw) {
+								// one sequence, walked twice here and once more by
+								// whichever goroutine picks it up next: a sequence
+								// handed out by a result is a value like any other
+								seq := targetsOf(rr, nw)
+								var first, second []string
+								for tg := range seq {
 									ntargets[g]++
 									_ = append([]string(nil), tg.ALPN...)
 									_ = len(tg.ECH)
+									first = append(first, tg.Address.String())
+								}
+								for tg := range seq {
+									second = append(second, tg.Address.String())
+								}
+								if !slices.Equal(first, second) {
+									seqMismatch.Store(fmt.Sprintf("Targets(%q) of Resolve(%q): first pass %v, second pass %v", nw, p.Names[ni].Host, first, second))
+								}
+								if prev, ok := sharedSeq.Swap(seqBox{seq}).(seqBox); ok && prev.s != nil {
+									for tg := range prev.s {
+										_ = tg.Address
+									}
 								}
 							}
 						})
@@ -990,6 +1019,10 @@ func executeConc(t *testing.T, prop string, pl *Plan) *core.Result {
 		wg.Wait()
 		stopTicker.Store(true)
 		<-tickerDone
+		sharedSeq.Store(seqBox{})
+		if m, ok := seqMismatch.Swap("").(string); ok && m != "" {
+			res.Fail(prop, "result-changes", "a target sequence handed out by a result yields different targets when it is walked again", "%s", m)
+		}
 		for g := range per {
 			calls = append(calls, per[g]...)
 			targets += ntargets[g]
@@ -1050,6 +1083,14 @@ func executeConc(t *testing.T, prop string, pl *Plan) *core.Result {
 	res.Sample = map[string]any{"kind": "conc", "goroutines": p.Goroutines, "iterations": p.Iter, "calls": len(calls), "upstream_requests": len(entries), "targets_iterated": targets, "schedule_control": "runtime"}
 	return res
 }
+
+// seqBox lets sequences of one concrete type travel through an atomic.Value.
+type seqBox struct{ s iter.Seq[ech.Target] }
+
+var (
+	sharedSeq   atomic.Value // the sequence most recently obtained by any goroutine
+	seqMismatch atomic.Value // string: a sequence that changed between two passes
+)
 
 // targetsOf is ResolveResult.Targets reached through a variable: the method
 // (and the iterator it returns) is then not inlined into the harness, so that
